@@ -66,6 +66,15 @@ func (c *Call) RecvTypeName() string {
 // Calls lists every call executed by this unit's own body (not nested
 // literals), in source order.
 func (u *Unit) Calls() []*Call {
+	if u.callsDone {
+		return u.calls
+	}
+	u.calls = u.computeCalls()
+	u.callsDone = true
+	return u.calls
+}
+
+func (u *Unit) computeCalls() []*Call {
 	var out []*Call
 	info := u.Info()
 	g := u.Graph()
